@@ -57,7 +57,7 @@ PROPS["C14"] = dict(
         dict(name="rate_wide_v1", mod="v1", pkg="priority", overlay="harness/v1/priority", harness="^VerifC14_rate_exact$", native=True, only_as_refinement=True,
              timeout=120000, params=dict(quick=dict(list=[0, 1, 2, 3, 4, 13, 14, 15], Dbits=[6]), thorough=dict(list=[0, 1, 2, 3, 4, 13, 14, 15], Dbits=[6]))),
         dict(mod="v2", pkg="priority/divider", overlay="harness/v2/divider", harness="^VerifC14_rate_L1$", native=True, timeout=dict(quick=60000, thorough=300000),
-             params=dict(quick=dict(list=[0, 4, 5], k=[0, 1, 2], Dbits=[16]), thorough=dict(list=[0, 2, 4, 5], k=[0, 1, 2, 3], Dbits=[32]))),
+             params=dict(quick=dict(list=[0, 4, 5], k=[0, 1, 2], Dbits=[16]), thorough=dict(list=[0, 4, 5], k=[0, 1, 2], Dbits=[32]))),
         dict(mod="v2", pkg="priority/divider", overlay="harness/v2/divider", harness="^VerifC14_rate_L2$", native=True, approx=True, timeout=dict(quick=60000, thorough=300000),
              params=dict(quick=dict(list=[0, 1, 3], Dbits=[32]), thorough=dict(list=[0, 1, 2, 3, 4, 5, 6, 7], Dbits=[32]))),
         dict(mod="v2", pkg="priority/divider", overlay="harness/v2/divider", harness="^VerifC14_rate_exact$", native=True, timeout=dict(quick=60000, thorough=300000),
